@@ -94,6 +94,11 @@ mod util;
 #[cfg(hbs_lms_verif)]
 pub mod verif_hooks;
 
+#[cfg(hbs_lms_verif)]
+extern crate std;
+#[cfg(hbs_lms_verif)]
+pub mod verif_trace;
+
 // Re-export the `signature` crate
 pub use signature::{self};
 
